@@ -288,6 +288,11 @@ func (pj *Projector) ParseRef(raw string, holderDoc string) []string {
 
 // Project turns a decoded JSON object into a Node. holderDoc is the docId of the document it belongs to.
 func (pj *Projector) Project(v map[string]any, holderDoc string) *Node {
+	return pj.project(v, holderDoc, false)
+}
+
+// secReq: v is a security requirement (scheme -> scopes): a null scopes list is an empty list there, not an absent member
+func (pj *Projector) project(v map[string]any, holderDoc string, secReq bool) *Node {
 	n := NewNode()
 	for k, val := range v {
 		if k == "$ref" {
@@ -297,12 +302,15 @@ func (pj *Projector) Project(v map[string]any, holderDoc string) *Node {
 			}
 		}
 		if val == nil {
+			if secReq {
+				n.At[pj.Names.Abs(k)] = []string{}
+			}
 			continue // JSON null == absent (serialization normal form)
 		}
 		label := pj.Names.Abs(k)
 		switch x := val.(type) {
 		case map[string]any:
-			n.Ch[label] = pj.Project(x, holderDoc)
+			n.Ch[label] = pj.project(x, holderDoc, false)
 		case []any:
 			allMaps, allScalars := len(x) > 0, true
 			for _, e := range x {
@@ -328,7 +336,7 @@ func (pj *Projector) Project(v map[string]any, holderDoc string) *Node {
 				ln := NewNode()
 				ln.At["__list"] = "1"
 				for i, e := range x {
-					ln.Ch[strconv.Itoa(i)] = pj.Project(e.(map[string]any), holderDoc)
+					ln.Ch[strconv.Itoa(i)] = pj.project(e.(map[string]any), holderDoc, k == "security")
 				}
 				n.Ch[label] = ln
 			case allScalars:
